@@ -77,6 +77,27 @@ Theorem C09_reflector_kernel_isometry : forall (F : rcfType) (tau v1 v2 : F) (x 
 Proof. by move=> F tau v1 v2 x y hc; split; [exact: hh3_dot | exact: hh3_invol]. Qed.
 Print Assumptions C09_reflector_kernel_isometry.
 
+(* matrix level: apply_householder_left writes hh3 of the triple (rows k, k+1, k+2) in every column j >= k and nothing else;
+   apply_householder_right (scalar path of the _simd kernel) writes hh3 of the triple (columns k, k+1, k+2) in every row below nrow (here n)
+   and nothing else - with C09_reflector_kernel_isometry: one Francis reflector step is H M H, H = I - tau w w^T symmetric orthogonal,
+   on all the entries the two kernels touch *)
+Theorem C09_reflector_kernels_entries : forall (F : rcfType) (n : nat) (M : mat (OpsF F)) (k : nat) (v1 v2 tau : F), wfm n M -> (k + 2 < n)%N ->
+  (forall i j, (i < n)%N -> (j < n)%N ->
+     (~~ ((k <= j) && (k <= i <= k + 2))%N -> mget (OpsF F) (hh_left (OpsF F) M k v1 v2 tau) i j = mget (OpsF F) M i j) /\
+     ((k <= j)%N -> (mget (OpsF F) (hh_left (OpsF F) M k v1 v2 tau) k j, mget (OpsF F) (hh_left (OpsF F) M k v1 v2 tau) (k + 1) j,
+                     mget (OpsF F) (hh_left (OpsF F) M k v1 v2 tau) (k + 2) j)
+                    = hh3 tau v1 v2 (mget (OpsF F) M k j, mget (OpsF F) M (k + 1) j, mget (OpsF F) M (k + 2) j))) /\
+  (forall i, (i < n)%N ->
+     (forall c, (c < n)%N -> c != k -> c != (k + 1)%N -> c != (k + 2)%N -> mget (OpsF F) (hh_right (OpsF F) M k n v1 v2 tau) i c = mget (OpsF F) M i c) /\
+     (mget (OpsF F) (hh_right (OpsF F) M k n v1 v2 tau) i k, mget (OpsF F) (hh_right (OpsF F) M k n v1 v2 tau) i (k + 1),
+      mget (OpsF F) (hh_right (OpsF F) M k n v1 v2 tau) i (k + 2))
+       = hh3 tau v1 v2 (mget (OpsF F) M i k, mget (OpsF F) M i (k + 1), mget (OpsF F) M i (k + 2))).
+Proof.
+move=> F n M k v1 v2 tau w k2; split; first exact: hh_left_entries.
+by have [_ h] := hh_right_entries v1 v2 tau w k2.
+Qed.
+Print Assumptions C09_reflector_kernels_entries.
+
 (* the WHOLE iteration, for every n, every input matrix (Hessenberg or not), every eps and every min >= 0: whenever the model of
    UpperHessenbergSchur::compute returns (instead of signalling the iteration limit, where the C++ throws), the accumulated U has
    the n x n shape and U U^T = I exactly - whatever shifts, deflations and exceptional shifts were taken *)
